@@ -52,7 +52,7 @@ Proof. exact c18_copy_exists. Qed.
 Print Assumptions C18_copy_exists.
 
 (** ... until one of them is edited anywhere: one field of one node at any depth and child
-    position (name, content, tail, prefix; one key of attributes / extras / nsmap added,
+    position (name, content, tail, prefix; one key of attributes / extras / nsmap added, replaced by another key,
     changed or removed), one child added or removed, two unequal children exchanged. *)
 Theorem C18_single_edit : forall a b b',
   tree_wf (erase a) -> tree_wf (erase b) -> tree_wf (erase b') ->
